@@ -241,10 +241,16 @@ func (g *gInst) String() string {
 	return sb.String()
 }
 
+// nestedGroup: how the generated message packages put a nested group into a template — a wrapper VALUE embedding the
+// group (cmd/generate-fix templates), not a bare *RepeatingGroup.  Any GroupItem has to work as a template item.
+type nestedGroup struct{ *quickfix.RepeatingGroup }
+
 func mkTemplate(items []tItem) quickfix.GroupTemplate {
 	var gt quickfix.GroupTemplate
 	for _, it := range items {
-		if it.isGroup {
+		if it.isGroup && it.tag%2 == 1 {
+			gt = append(gt, nestedGroup{quickfix.NewRepeatingGroup(quickfix.Tag(it.tag), mkTemplate(it.sub))})
+		} else if it.isGroup {
 			gt = append(gt, quickfix.NewRepeatingGroup(quickfix.Tag(it.tag), mkTemplate(it.sub)))
 		} else {
 			gt = append(gt, quickfix.GroupElement(quickfix.Tag(it.tag)))
@@ -601,7 +607,11 @@ func (c *codecImpl) exec(op string) string {
 			if err != nil {
 				return fmt.Sprintf("err %d", err.RejectReason())
 			}
-			return "val " + hx(v)
+			res := "val " + hx(v)
+			// what a caller may do with a slice it was handed: extend it (a key, a log line).  The message it came from
+			// — its raw bytes, its other fields — has to stay what it was; later observations of this case tell.
+			_ = append(v, "\x01~~=~\x01"...)
+			return res
 		case "geti":
 			v, err := c.sec(w[1]).GetInt(quickfix.Tag(codecMustInt(w[2])))
 			if err != nil {
